@@ -67,7 +67,7 @@ def shards(tier, seed):
                 "params": {"kind": "threaded", "seed": seed, "nthreads": 4,
                            "per_thread": 40 if tier == "quick" else 400}})
     if tier == "thorough":
-        out.append({"name": "repo-tests", "threads": 4, "timeout": 1800,
+        out.append({"name": "repo-tests", "threads": 4, "timeout": 2400,
                     "params": {"kind": "repo-tests"}})
     return out
 
